@@ -87,6 +87,15 @@ CHECKS = {
             'Trusted: ref_delete() in vf/props/c12.py. Under ignore_missing=True a *refused* deletion (fault) is only required '
             'to leave the target unchanged. Bounds: depth <= 3, path length <= 4.',
             'DESIGN.md section 4 / C12'),
+    'C15': ('Hypothesis-generated element sequences x init/op/levels combinations for Fold, Sum, Flatten (eager and lazy), '
+            'Merge, flatten() and merge() vs functools.reduce / chain.from_iterable / dict.update; each spec object is '
+            'evaluated 2-3 times with counting factories and input snapshots',
+            'Generated-input differential testing with exact Python references; additionally init() is counted (fresh per '
+            'evaluation), the accumulator must be a fresh object that is neither an input nor a previous result, inputs '
+            'keep an identical structure-and-identity snapshot, non-iterable targets raise FoldError.',
+            'Trusted: the Python reductions. Floats are dyadic rationals so == is exact. Mismatched init/op combinations: '
+            'only "both raise" is asserted. Bounds: <= 4 elements, nesting <= 3, levels <= 3.',
+            'DESIGN.md section 4 / C15'),
 }
 
 NOT_YET = 'check not built yet in this session (design in DESIGN.md section 4); will be claimed once its check is quiet on the unchanged tree'
